@@ -52,6 +52,19 @@ def _history(kind, body, ending):
                 r = D(n=len(written), s=f"r{len(written)}", _generated=GEN)
                 w.write(r)
                 written.append(r)
+            elif op == "x":
+                # a record the writer cannot store: refused with an error that the caller catches
+                if kind in ("SqliteWriter", "AvroWriter"):
+                    bad = D(n=2**70, s="refused", _generated=GEN)
+                else:
+                    from flow.record import RecordDescriptor
+
+                    bad = RecordDescriptor("c17/dl", [("dictlist", "dl")])(dl=[{"k": {1, 2}}], _generated=GEN)
+                try:
+                    w.write(bad)
+                    written.append(bad)
+                except Exception:
+                    pass
             else:
                 w.flush()
         for op in {"close": ["close"], "with-exit": ["exit"], "close close": ["close", "close"], "with-exit close": ["exit", "close"], "flush close": ["flush", "close"]}[ending]:
@@ -63,10 +76,10 @@ def _history(kind, body, ending):
                 w.__exit__(None, None, None)
         try:
             with RecordReader(scheme + path) as rd:
-                back = [(r.n, r.s) for r in rd]
+                back = [(getattr(r, "n", None), getattr(r, "s", None)) for r in rd]
         except Exception as e:
             return f"the closed output is not readable: {type(e).__name__}: {e}"
-        if back != [(r.n, r.s) for r in written]:
+        if back != [(getattr(r, "n", None), getattr(r, "s", None)) for r in written]:
             return f"{len(written)} record(s) written before close, read back {back}"
         ind = _independent_count(kind, path)
         if ind is not None and ind != len(written):
@@ -167,7 +180,7 @@ def _rotate(same_second, runs=3):
     return None
 
 
-def c17_template(template="{name}-{ts:%Y%m%dT%H}.records", minutes=((22, 10), (22, 20)), relative=False):
+def c17_template(template="{name}-{ts:%Y%m%dT%H}.records", minutes=((22, 10), (22, 20)), relative=False, offset_minutes=0):
     """one writer on an empty directory: every record is in the file its template names, nothing is renamed
     (relative: the template has no directory part and the empty directory is the working directory; template None: the writer's default template)"""
     from flow.record import PathTemplateWriter, RecordReader
@@ -182,7 +195,7 @@ def c17_template(template="{name}-{ts:%Y%m%dT%H}.records", minutes=((22, 10), (2
             w = PathTemplateWriter(full(template), name="t") if template else PathTemplateWriter(name="t")
             expected = {}
             for j, (hh, mm) in enumerate(minutes):
-                g = datetime.datetime(2017, 12, 6, hh, mm, tzinfo=UTC)
+                g = datetime.datetime(2017, 12, 6, hh, mm, tzinfo=datetime.timezone(datetime.timedelta(minutes=offset_minutes)) if offset_minutes else UTC)
                 try:
                     w.write(D(n=j, s=f"r{j}", _generated=g))
                 except Exception as e:
